@@ -91,3 +91,17 @@ Proof.
   - exists a. split; reflexivity.
   - apply nth_error_None in Hn. lia.
 Qed.
+
+(** * layout_transpose is injective on its index space *)
+Theorem tr_map_injective : forall l t ne i j i' j', wf_ity t -> rank ne = 2%nat ->
+  in_range [i; j] (rev (extents_list t ne)) -> in_range [i'; j'] (rev (extents_list t ne)) ->
+  product (extents_list t ne) <= imax t ->
+  tr_map l t ne i j = tr_map l t ne i' j' -> i = i' /\ j = j'.
+Proof.
+  intros l t ne i j i' j' Hwf Hr Hin Hin' Hp Heq.
+  destruct (tr_map_formula l t ne i j Hwf Hr Hin Hp) as [H1 _].
+  destruct (tr_map_formula l t ne i' j' Hwf Hr Hin' Hp) as [H2 _].
+  rewrite H1, H2 in Heq. injection Heq as Heq.
+  assert (E := spec_offset_inj (flip l) _ _ _ Hin Hin' Heq).
+  injection E as E1 E2. split; assumption.
+Qed.
